@@ -3536,6 +3536,14 @@ impl<'s> Semantics<'s> {
                 rhs = Expr::zext(lhs.bits(), rhs)?;
             }
 
+            // the count is masked to 5 bits (6 bits for 64-bit operands); a masked count of zero
+            // leaves the destination and every flag unchanged
+            let rhs = Expr::and(
+                rhs,
+                expr_const(if lhs.bits() == 64 { 0x3f } else { 0x1f }, lhs.bits()),
+            )?;
+            let zero_count = Expr::cmpeq(rhs.clone(), expr_const(0, rhs.bits()))?;
+
             // Do the SAR
             let expr = Expr::ashr(lhs.clone(), rhs.clone())?;
 
@@ -3548,17 +3556,44 @@ impl<'s> Semantics<'s> {
                     Expr::cmpneq(rhs.clone(), expr_const(0, rhs.bits()))?,
                 )?,
             )?;
-            // This shifts lhs right by (rhs - 1)
-            let cf = Expr::shr(lhs, Expr::sub(rhs.clone(), expr_const(1, rhs.bits()))?)?;
+            // This shifts lhs right (arithmetically: once the count reaches the width the last
+            // bit shifted out is a copy of the sign) by (rhs - 1)
+            let cf = Expr::ashr(lhs, Expr::sub(rhs.clone(), expr_const(1, rhs.bits()))?)?;
             // Apply mask
             let cf = Expr::trun(1, Expr::and(cf, non_zero_mask)?)?;
-            block.assign(scalar("CF", 1), cf);
+            block.assign(
+                scalar("CF", 1),
+                Expr::ite(zero_count.clone(), expr_scalar("CF", 1), cf)?,
+            );
 
-            // OF is the last bit shifted out
-            block.assign(scalar("OF", 1), expr_const(0, 1));
+            // OF is cleared (1-bit shifts; undefined otherwise)
+            block.assign(
+                scalar("OF", 1),
+                Expr::ite(zero_count.clone(), expr_scalar("OF", 1), expr_const(0, 1))?,
+            );
 
-            self.set_zf(block, expr.clone())?;
-            self.set_sf(block, expr.clone())?;
+            block.assign(
+                scalar("ZF", 1),
+                Expr::ite(
+                    zero_count.clone(),
+                    expr_scalar("ZF", 1),
+                    Expr::cmpeq(expr.clone(), expr_const(0, expr.bits()))?,
+                )?,
+            );
+            block.assign(
+                scalar("SF", 1),
+                Expr::ite(
+                    zero_count.clone(),
+                    expr_scalar("SF", 1),
+                    Expr::trun(
+                        1,
+                        Expr::shr(
+                            expr.clone(),
+                            expr_const(expr.bits() as u64 - 1, expr.bits()),
+                        )?,
+                    )?,
+                )?,
+            );
 
             self.operand_store(block, &detail.operands[0], expr)?;
 
@@ -3773,6 +3808,14 @@ impl<'s> Semantics<'s> {
                 rhs = Expr::zext(lhs.bits(), rhs)?;
             }
 
+            // the count is masked to 5 bits (6 bits for 64-bit operands); a masked count of zero
+            // leaves the destination and every flag unchanged
+            let rhs = Expr::and(
+                rhs,
+                expr_const(if lhs.bits() == 64 { 0x3f } else { 0x1f }, lhs.bits()),
+            )?;
+            let zero_count = Expr::cmpeq(rhs.clone(), expr_const(0, rhs.bits()))?;
+
             // Do the SHL
             let expr = Expr::shl(lhs.clone(), rhs.clone())?;
 
@@ -3790,7 +3833,10 @@ impl<'s> Semantics<'s> {
             // Extract MSB (shift right by bits-1), then apply non-zero mask
             let cf = Expr::shr(cf.clone(), expr_const(cf.bits() as u64 - 1, cf.bits()))?;
             let cf = Expr::trun(1, Expr::and(cf, non_zero_mask)?)?;
-            block.assign(scalar("CF", 1), cf.clone());
+            block.assign(
+                scalar("CF", 1),
+                Expr::ite(zero_count.clone(), expr_scalar("CF", 1), cf.clone())?,
+            );
 
             // OF (count==1): OF = MSB(result) XOR CF
             let of = Expr::xor(
@@ -3803,10 +3849,33 @@ impl<'s> Semantics<'s> {
                     )?,
                 )?,
             )?;
-            block.assign(scalar("OF", 1), of);
+            block.assign(
+                scalar("OF", 1),
+                Expr::ite(zero_count.clone(), expr_scalar("OF", 1), of)?,
+            );
 
-            self.set_zf(block, expr.clone())?;
-            self.set_sf(block, expr.clone())?;
+            block.assign(
+                scalar("ZF", 1),
+                Expr::ite(
+                    zero_count.clone(),
+                    expr_scalar("ZF", 1),
+                    Expr::cmpeq(expr.clone(), expr_const(0, expr.bits()))?,
+                )?,
+            );
+            block.assign(
+                scalar("SF", 1),
+                Expr::ite(
+                    zero_count.clone(),
+                    expr_scalar("SF", 1),
+                    Expr::trun(
+                        1,
+                        Expr::shr(
+                            expr.clone(),
+                            expr_const(expr.bits() as u64 - 1, expr.bits()),
+                        )?,
+                    )?,
+                )?,
+            );
 
             self.operand_store(block, &detail.operands[0], expr)?;
 
@@ -3833,6 +3902,14 @@ impl<'s> Semantics<'s> {
                 rhs = Expr::zext(lhs.bits(), rhs)?;
             }
 
+            // the count is masked to 5 bits (6 bits for 64-bit operands); a masked count of zero
+            // leaves the destination and every flag unchanged
+            let rhs = Expr::and(
+                rhs,
+                expr_const(if lhs.bits() == 64 { 0x3f } else { 0x1f }, lhs.bits()),
+            )?;
+            let zero_count = Expr::cmpeq(rhs.clone(), expr_const(0, rhs.bits()))?;
+
             // Do the SHR
             let expr = Expr::shr(lhs.clone(), rhs.clone())?;
 
@@ -3852,19 +3929,46 @@ impl<'s> Semantics<'s> {
             )?;
             // Apply mask
             let cf = Expr::trun(1, Expr::and(cf, non_zero_mask)?)?;
-            block.assign(scalar("CF", 1), cf);
+            block.assign(
+                scalar("CF", 1),
+                Expr::ite(zero_count.clone(), expr_scalar("CF", 1), cf)?,
+            );
 
             // OF set to most significant bit of the original operand
             block.assign(
                 scalar("OF", 1),
-                Expr::trun(
-                    1,
-                    Expr::shr(lhs.clone(), expr_const(lhs.bits() as u64 - 1, lhs.bits()))?,
+                Expr::ite(
+                    zero_count.clone(),
+                    expr_scalar("OF", 1),
+                    Expr::trun(
+                        1,
+                        Expr::shr(lhs.clone(), expr_const(lhs.bits() as u64 - 1, lhs.bits()))?,
+                    )?,
                 )?,
             );
 
-            self.set_zf(block, expr.clone())?;
-            self.set_sf(block, expr.clone())?;
+            block.assign(
+                scalar("ZF", 1),
+                Expr::ite(
+                    zero_count.clone(),
+                    expr_scalar("ZF", 1),
+                    Expr::cmpeq(expr.clone(), expr_const(0, expr.bits()))?,
+                )?,
+            );
+            block.assign(
+                scalar("SF", 1),
+                Expr::ite(
+                    zero_count.clone(),
+                    expr_scalar("SF", 1),
+                    Expr::trun(
+                        1,
+                        Expr::shr(
+                            expr.clone(),
+                            expr_const(expr.bits() as u64 - 1, expr.bits()),
+                        )?,
+                    )?,
+                )?,
+            );
 
             self.operand_store(block, &detail.operands[0], expr)?;
 
